@@ -280,6 +280,12 @@ pub fn hostile_devs() -> Vec<(usize, String)> {
     for v in ["", "\\u{110000}", "\\uD800", "\\u{}", "a\\u002cb", "\u{0}", "a\\u0000b", "\\u{0}", "\\u0000"] {
         d.push((0, v.to_string()));
     }
+    // lengths around the switch from a one-byte to a two-byte length prefix
+    for n in [126usize, 127, 128, 129, 255, 256] {
+        d.push((0, "a".repeat(n)));
+        d.push((4, "あ".repeat(n)));
+        d.push((11, "ア".repeat(n)));
+    }
     d.push((0, "あ".repeat(11000))); // 33000 bytes > 32767
     d.push((0, "a".repeat(32767)));
     d.push((0, "a".repeat(32768)));
